@@ -10,7 +10,7 @@ CONSTANTS OutFile, Shard, NShards
 
 \* the characters that a token contributes to the text of a literal (after escape processing)
 TokText(t) == CASE t = "Q" -> "\"" [] t = "PL" -> "%(" [] t = "PR" -> "%)" [] t = "L" -> "(" [] t = "R" -> ")" [] t = "X" -> "1"
-                [] t = "N" -> "\n" [] t = "BQ" -> "\"" [] t = "BS" -> "\\"
+                [] t = "N" -> "\n" [] t = "BQ" -> "\"" [] t = "BS" -> "\\" [] t = "PPL" -> "%(" [] t = "PPR" -> "%)"
 
 RECURSIVE ItemsTree(_, _, _), FmtChildren(_, _, _)
 \* items from position i up to a closing parenthesis or the end: [t, i]
